@@ -57,6 +57,10 @@ InvIsolation ==
   /\ Mangle => \A k \in 1..Len(hist) : hist[k].kind = "ac" =>
         \A f \in Fronts, i \in Insts : (Read(f, "ac", i) = k) => (i = hist[k].inst)
 
+\* an existence check (HTTP HEAD of /cas/ and /ac/, FindMissingBlobs) names the same entry as the read does
+Exists(front, kind, inst) == Read(front, kind, inst) # 0
+InvExistsAgrees == \A f \in Fronts, k \in {"ac", "cas"}, i \in Insts : Exists(f, k, i) <=> store[<<Ns(f, k), EKey(k, i)>>] # 0
+
 Reads == [f \in Fronts |-> [k \in {"ac", "cas"} |-> [i \in Insts |-> Read(f, k, i)]]]
 PrintFinal == (Len(hist) = MaxOps /\ "VERIF_PRINT" \in DOMAIN IOEnv) =>
                  PrintT(<<"CASE", ToJson([hist |-> hist, reads |-> Reads, mangle |-> Mangle, validate |-> Validate])>>)
